@@ -9,7 +9,7 @@ _T = ['sym_reverses_velocity_only', 'outsup_copies', 'outsub_imposes_pressure', 
       'insub_cbc_def', 'outsub_qtot_def', 'outsub_nrcbc_def', 'outsub_rh_def', 'sym2d_def', 'outsub2d_def', 'outsup2d_def',
       'insub2d_def', 'insup2d_def', 'insub_compatible', 'insup_compatible', 'outsub_compatible', 'outsub_qtot_compatible',
       'outsub_nrcbc_compatible', 'outsub_rh_compatible']
-THEOREMS = []  # filled when proofs land
+THEOREMS = ['Flowdyn.C16.' + t for t in _T]
 PARTIAL = {}
 LEVEL_NOTE = "boundary kernels over the reals with explicit regime hypotheses; dispatch by name/direction/parameter dictionary is covered by L-bcker and L-bc1d/L-bc2d"
 TOL = 1e-9
